@@ -14,7 +14,10 @@ GCP optimizers; RNG who-may-call over all modules):
           a test that only applies isinstance / callable to the parameter is type validation, not presentation
   RNG     random draws use only the global legacy stream np.random.<fn> (same seed => same start); no private
           generators, re-seeding or time-derived seeds
-Not decided: dense vs. sparse agreement of the results, scaling and relabelling equivariance (relations between
+  ROWS    the per-row subproblem loops of the CP-APR Newton solvers carry no state from one row to the next beyond the reviewed
+          table tables/c18_rowstate.json (model rows, counters, running maxima): the sparse path skips empty rows and the dense
+          path does not, so any other carried state (damping parameter, quasi-Newton memory) makes the two runs diverge
+Not decided: dense vs. sparse agreement of the results beyond that clause, scaling and relabelling equivariance (relations between
 floating-point runs). Diagnostics recomputed only when printing (fit in cp_als, fnVals in cp_apr) may differ from
 the silent run by rounding; the property allows that.
 """
@@ -279,11 +282,105 @@ def _next_model_use(loop, region: ast.If, mname: str):
     return None
 
 
+def loop_carried(loop: ast.For) -> Dict[str, ast.AST]:
+    """Names that an iteration may read before it (re)defines them AND that the loop body writes: state carried between iterations."""
+    written: Dict[str, ast.AST] = {}
+    exposed: Dict[str, ast.AST] = {}
+
+    def reads(e):
+        return {n.id: n for n in ast.walk(e) if isinstance(n, ast.Name) and isinstance(n.ctx, ast.Load)}
+
+    def expose(rs, defined):
+        for k, n in rs.items():
+            if k not in defined:
+                exposed.setdefault(k, n)
+
+    def block(body, defined):
+        defined = set(defined)
+        for st in body:
+            if isinstance(st, (ast.Assign, ast.AnnAssign, ast.AugAssign)):
+                tg = st.targets if isinstance(st, ast.Assign) else [st.target]
+                r = reads(st.value) if st.value is not None else {}
+                for t in tg:
+                    if not isinstance(t, ast.Name):
+                        r.update(reads(t))            # subscripts / attribute bases and indices are read
+                if isinstance(st, ast.AugAssign) and isinstance(st.target, ast.Name):
+                    r[st.target.id] = st.target
+                expose(r, defined)
+                for t in tg:
+                    for x in (t.elts if isinstance(t, (ast.Tuple, ast.List)) else [t]):
+                        if isinstance(x, ast.Name):
+                            written.setdefault(x.id, st)
+                            defined.add(x.id)
+                        else:
+                            b = x
+                            while isinstance(b, (ast.Subscript, ast.Attribute)):
+                                b = b.value
+                            if isinstance(b, ast.Name):
+                                written.setdefault(b.id, st)      # element / attribute store into a carried container
+            elif isinstance(st, ast.If):
+                expose(reads(st.test), defined)
+                d1, d2 = block(st.body, defined), block(st.orelse, defined)
+                defined = d1 & d2
+            elif isinstance(st, (ast.For, ast.While)):
+                if isinstance(st, ast.For):
+                    expose(reads(st.iter), defined)
+                    d = set(defined) | {x.id for x in ast.walk(st.target) if isinstance(x, ast.Name)}
+                else:
+                    expose(reads(st.test), defined)
+                    d = set(defined)
+                block(st.body, d)         # may run zero times: defines nothing for what follows
+                # a second iteration of the inner loop sees what the first one wrote: those reads are inner-loop state,
+                # re-initialised per outer iteration iff they were defined before the inner loop (checked by `defined`)
+            elif isinstance(st, (ast.Expr, ast.Return)):
+                if st.value is not None:
+                    expose(reads(st.value), defined)
+            elif isinstance(st, ast.Assert):
+                expose(reads(st.test), defined)
+            elif isinstance(st, (ast.Break, ast.Continue, ast.Pass)):
+                pass
+            else:
+                expose(reads(st), defined)
+        return defined
+
+    block(loop.body, {x.id for x in ast.walk(loop.target) if isinstance(x, ast.Name)})
+    return {k: exposed[k] for k in exposed if k in written}
+
+
+def rows_independent(prog: Program, res: Result) -> None:
+    import json, os
+    table = json.load(open(os.path.join(os.path.dirname(__file__), "..", "..", "tables", "c18_rowstate.json")))
+    for short in ("cp_apr.tt_cp_apr_pdnr", "cp_apr.tt_cp_apr_pqnr"):
+        fi = prog.func(short)
+        allowed = table.get(short, {})
+        loops = [n for n in ast.walk(fi.node) if isinstance(n, ast.For) and ast.unparse(n.iter).replace(" ", "") == "range(num_rows)"]
+        desc = "row subproblems are independent: an iteration of `for jj in range(num_rows)` reads nothing a previous row left behind (beyond the reviewed table)"
+        if not loops:
+            res.undecided("ROWS", short, desc, prog.loc(fi), "row loop not found")
+            continue
+        bad = None
+        seen: Set[str] = set()
+        for lp in loops:
+            for name, node in loop_carried(lp).items():
+                seen.add(name)
+                if name not in allowed and bad is None:
+                    bad = (name, node, lp)
+        if bad:
+            name, node, lp = bad
+            res.bad("ROWS", short, desc, prog.loc(fi, node),
+                    f"`{name}` is written inside the row loop and read by the next row before it is set again: the state of one row's solve "
+                    "(e.g. an adapted damping parameter or quasi-Newton memory) leaks into the next; dense data visit all-zero rows that the sparse "
+                    "path skips, so the two runs diverge")
+        else:
+            res.ok("ROWS", short, desc, prog.loc(fi, loops[-1]), f"carried: {sorted(seen)}")
+
+
 def check(prog: Program, res: Result, tier: str) -> None:
     res.explanation = __doc__.split("\n\n", 1)[1]
     res.assumptions = ["print / logging / f-string formatting have no effect on program state",
                        "normalize / arrange / redistribute / fixsigns change only the parameterisation of a Kruskal tensor (C08)"]
-    res.floors = {"TAINT": 30, "RNG": 8}
+    res.floors = {"TAINT": 30, "RNG": 8, "ROWS": 2}
+    rows_independent(prog, res)
     eng = al.Engine(prog)
     eng.solve()
     total = 0
